@@ -210,6 +210,29 @@ void periodicTsmCase(long kk, uint64_t seed, bool th, Result& res) {
     if (e.pot > boundOf(KEY + ".per.pot", res)) res.fail("c05:periodic-tsm-potential-error-above-bound", res.desc + " err=" + vh::str(e.pot) + " images [" + vh::str(lo) + "," + vh::str(hi) + "]");
     if (e.force > boundOf(KEY + ".per.force", res)) res.fail("c05:periodic-tsm-force-error-above-bound", res.desc + " err=" + vh::str(e.force));
     res.ev("periodic-tsm-runs"); res.ev("targets-compared", (long long)which.size());
+    {
+        // same input on the OpenMP target/source executor (periodic P2P shifts source positions by whole box widths: the shifted copies
+        // are per call, the stored positions must come out untouched whatever overlaps): results equal to rounding, positions bit-identical
+        TreeTsm<SpaceP> tree2(cfg, src, tgt, (kk % 2) ? 1L : 3L, r.coin());
+        const int threads = int(r.pick(std::vector<int>{2, 4, 16}));
+        if (getenv("VH_FORCE_WAVE")) vsched::configure(std::max(4, threads), vsched::WAVE_RANDOM, 7); else vsched::configure(threads, r.coin() ? int(vsched::WAVE_RANDOM) : int(vsched::WAVE_EAGER), 7);
+        {
+            auto algo = std::make_unique<TbfOpenmpAlgorithmTsm<Real, Kernel<SpaceP>, SpaceP>>(cfg, Kernel<SpaceP>(cfg, &mk()), TbfDefaultLastLevelPeriodic);
+            using Top = TbfAlgorithmPeriodicTopTreeTsm<Real, Kernel<SpaceP>, MultipoleData, LocalData, SpaceP>;
+            const auto topCfg = Top::GenerateAboveTreeConfiguration(cfg, extra);
+            auto top = std::make_unique<Top>(cfg, Kernel<SpaceP>(topCfg, &mk()), extra);
+            algo->execute(tree2, TbfBottomToTopStages); top->execute(tree2); algo->execute(tree2, TbfTransferStages); algo->execute(tree2, TbfTopToBottomStages);
+        }
+        std::vector<std::array<Real, 4>> got2(tgt.size());
+        tree2.applyToAllLeavesTarget([&](auto& hdr, const long* idx, auto&& data, auto&& rhs) {
+            for (long p = 0; p < hdr.nbParticles; ++p) { for (int v = 0; v < 4; ++v) got2[idx[p]][v] = rhs[v][p]; for (int v = 0; v < 4; ++v) if (std::memcmp(&data[v][p], &tgt[size_t(idx[p])][v], sizeof(Real)) != 0) res.fail("c06:positions-changed-by-execute", res.desc + " target " + vh::str(idx[p]) + " value " + vh::str(v)); } });
+        tree2.applyToAllLeavesSource([&](auto& hdr, const long* idx, auto&& data, auto&&) {
+            for (long p = 0; p < hdr.nbParticles; ++p) for (int v = 0; v < 4; ++v) if (std::memcmp(&data[v][p], &src[size_t(idx[p])][v], sizeof(Real)) != 0) res.fail("c06:positions-changed-by-execute", res.desc + " source " + vh::str(idx[p]) + " value " + vh::str(v) + " (OpenMP target/source executor)"); });
+        const Errs d = diffNormalised<Real>(got, got2, which, R);
+        recordMax(res, KEY + ".inv", std::max(d.pot, d.force));
+        if (std::max(d.pot, d.force) > boundOf(KEY + ".inv", res)) res.fail("c05:periodic-tsm-result-depends-on-grouping-or-executor", res.desc + " OpenMP target/source executor, diff=" + vh::str(std::max(d.pot, d.force)));
+        res.ev("invariance-pairs"); res.ev("periodic-tsm-openmp-runs");
+    }
     res.sig = KEY + ",per-tsm,H" + vh::str(H) + ",x" + vh::str(extra) + "," + vh::str(kk); res.nontrivial = true;
 }
 // boxes far from the origin relative to their leaf width: announced as a context (the interpolation code asserts
